@@ -33,6 +33,21 @@ struct Worker {
     sc: cli::Scratch,
     table: BTreeMap<Shape, u64>,
     n: u64,
+    /// false once the log written through the in-process stepping loop disagreed with the log
+    /// the real binary writes for the same program: the property is about `--heap-log` of the
+    /// binary, and the in-process shortcut (State + set_log + step loop) bypasses
+    /// `evaluate_with_memory_config`, so a tree that writes its records there is not wrong
+    inproc_log_ok: bool,
+}
+
+/// the log `fml run --heap-log` (release binary) writes for `src`
+fn cli_log(wk: &mut Worker, src: &str) -> Result<String, Violation> {
+    let f = wk.sc.file("confirm.fml");
+    let l = wk.sc.file("confirm.csv");
+    std::fs::write(&f, src).unwrap();
+    let _ = std::fs::remove_file(&l);
+    cli::run_fml(&cli::fml_release(), &["run", f.to_str().unwrap(), "--heap-log", l.to_str().unwrap()]).map_err(|e| Violation::new("harness-error", e.to_string(), json!({})))?;
+    Ok(std::fs::read_to_string(&l).unwrap_or_default())
 }
 
 thread_local! {
@@ -135,7 +150,7 @@ fn judge(prog: &Prog, ctx: &mut Ctx, tape: &[u8], cli_level: u8) -> Judged {
     let res: Judged = W.with(|w| {
         let mut w = w.borrow_mut();
         if w.is_none() {
-            let mut wk = Worker { sc: cli::Scratch::new("C16", "w"), table: BTreeMap::new(), n: 0 };
+            let mut wk = Worker { sc: cli::Scratch::new("C16", "w"), table: BTreeMap::new(), n: 0, inproc_log_ok: true };
             // calibration probes through the tree under test: they seed the shape table
             for p in probes() {
                 let ast = fmlrun::parse(p).map_err(|e| Violation::new("harness-error", e, json!({})))?;
@@ -145,8 +160,13 @@ fn judge(prog: &Prog, ctx: &mut Ctx, tape: &[u8], cli_level: u8) -> Judged {
                 let f = wk.sc.file("probe.csv");
                 let _ = fmlrun::run_stepped_cfg(&pp.loaded, 100_000, Some(f.clone()));
                 let text = std::fs::read_to_string(&f).unwrap_or_default();
-                if let Err(e) = check_log(&text, &rr.allocs, &mut wk.table, true) {
-                    return Err(Violation::new("heap-log", format!("calibration probe `{}`: {}", p, e), json!({"source": p})).with("where", "probe"));
+                if !wk.inproc_log_ok || check_log(&text, &rr.allocs, &mut wk.table, true).is_err() {
+                    // decided by the binary, not by the shortcut
+                    let text = cli_log(&mut wk, p)?;
+                    if let Err(e) = check_log(&text, &rr.allocs, &mut wk.table, true) {
+                        return Err(Violation::new("heap-log", format!("calibration probe `{}` (`fml run --heap-log`): {}", p, e), json!({"source": p})).with("where", "probe"));
+                    }
+                    wk.inproc_log_ok = false;
                 }
             }
             *w = Some(wk);
@@ -175,8 +195,29 @@ fn judge(prog: &Prog, ctx: &mut Ctx, tape: &[u8], cli_level: u8) -> Judged {
             return Ok(());
         }
         let text = std::fs::read_to_string(&f).unwrap_or_default();
-        if let Err(e) = check_log(&text, &r.allocs, &mut wk.table, true) {
-            return Err(Violation::new("heap-log", format!("in-process log: {}", e), case()).with("where", "in-process"));
+        if wk.inproc_log_ok {
+            if let Err(e) = check_log(&text, &r.allocs, &mut wk.table, true) {
+                let text = cli_log(wk, &src)?;
+                if let Err(e2) = check_log(&text, &r.allocs, &mut wk.table, false) {
+                    return Err(Violation::new("heap-log", format!("`fml run --heap-log`: {} (in-process log: {})", e2, e), case()).with("where", "cli"));
+                }
+                wk.inproc_log_ok = false;
+            }
+        }
+        let mut cli_level = cli_level;
+        if !wk.inproc_log_ok {
+            // the shortcut does not see this tree's log: every failing program and every fourth
+            // other one goes through the binary instead
+            ctx.label("log-judged-through-the-binary-only");
+            if r.outcome != Outcome::Ok || wk.n % 4 == 0 {
+                let text = cli_log(wk, &src)?;
+                if let Err(e) = check_log(&text, &r.allocs, &mut wk.table, true) {
+                    return Err(Violation::new("heap-log", format!("`fml run --heap-log`: {}", e), case()).with("where", "cli"));
+                }
+                if wk.n % 64 == 0 {
+                    cli_level = cli_level.max(1);
+                }
+            }
         }
         // ---- real binaries
         if cli_level > 0 {
@@ -294,7 +335,7 @@ impl Property for C16 {
         true
     }
     fn rule(&self) -> String {
-        "cases: programs from the typed generator with the allocation profile (arrays simple and compound of size 0-40, objects with 0-6 fields and 0-4 methods with names of varied length, in loops, functions and as parents; ~12% fail mid-way; some allocate nothing). In-process for every case: State::from + heap.set_log + step loop; for a sample the real `fml run` with --heap-log FILE, --heap-log into a not-yet-existing directory, --heap-size in {0,1,7,4096,2^20} (for a sub-sample also 2^44 and u64::MAX on release AND debug binaries), and `fml compile` + `fml execute` with and without the flags. oracle: header exactly `timestamp,event,heap`, one S record with heap 0, then exactly as many A records as the reference semantics' allocation history (up to the failure), decimal timestamps, strictly increasing cumulative sizes whose increments are a function of the created value's shape (array length; multisets of field- and method-name lengths) - checked against a table seeded by calibration probes and extended by every observation; stdout and zero/non-zero status identical under every flag combination. non-trivial: >=3 allocations of >=2 different shapes; distinct by source".into()
+        "cases: programs from the typed generator with the allocation profile (arrays simple and compound of size 0-40, objects with 0-6 fields and 0-4 methods with names of varied length, in loops, functions and as parents; ~12% fail mid-way; some allocate nothing). In-process for every case: State::from + heap.set_log + step loop (a shortcut: a log it gets wrong is reported only if `fml run --heap-log` gets it wrong for the same program too; if the two differ, the binary alone is used from then on); for a sample the real `fml run` with --heap-log FILE, --heap-log into a not-yet-existing directory, --heap-size in {0,1,7,4096,2^20} (for a sub-sample also 2^44 and u64::MAX on release AND debug binaries), and `fml compile` + `fml execute` with and without the flags. oracle: header exactly `timestamp,event,heap`, one S record with heap 0, then exactly as many A records as the reference semantics' allocation history (up to the failure), decimal timestamps, strictly increasing cumulative sizes whose increments are a function of the created value's shape (array length; multisets of field- and method-name lengths) - checked against a table seeded by calibration probes and extended by every observation; stdout and zero/non-zero status identical under every flag combination. non-trivial: >=3 allocations of >=2 different shapes; distinct by source".into()
     }
     fn assumptions(&self) -> Vec<String> {
         vec![
